@@ -842,6 +842,16 @@ inline SenderVerdict walkFrames(const std::vector<Bytes>& frames, const std::vec
             mapOk = false;
             break;
         }
+        // (outside C07's own domain: a packet with an EMPTY payload may legitimately have produced no message at all - it has no
+        // byte to lose; the mapping then goes on with the next packet)
+        while (posInPkt == 0 && m.h.plen != 0 && pkt < batch.size() && batch[pkt].payload.empty())
+            ++pkt;
+        if (pkt >= batch.size())
+        {
+            fail("walker.bytes-once", "more messages on the wire than packets in the batch");
+            mapOk = false;
+            break;
+        }
         // the mapping of messages to packets follows the BYTES (C07); whether the segment bits are the right ones is C08's rule
         const Bytes& want = batch[pkt].payload;
         const Bytes& fr = frames[m.frame];
@@ -870,6 +880,8 @@ inline SenderVerdict walkFrames(const std::vector<Bytes>& frames, const std::vec
         else
             inChain = true;
     }
+    while (mapOk && !inChain && pkt < batch.size() && batch[pkt].payload.empty())
+        ++pkt;  // (trailing packets with an empty payload that produced no message)
     if (mapOk && (pkt != batch.size() || inChain))
     {
         fail("walker.bytes-once", "only " + std::to_string(pkt) + " of " + std::to_string(batch.size()) + " packets are complete on the wire");
